@@ -136,6 +136,10 @@ func (f *File) WriteAt(p []byte, off int64) (n int, err error) {
 	if evicted {
 		return 0, ErrEvicted
 	}
+	if len(p) == 0 {
+		// Like pwrite(2) with a zero count: transfers nothing and never extends the file.
+		return 0, nil
+	}
 
 	end := int(off) + len(p)
 	buf, resized := resizeSliceIfNecessary(buf, end)
